@@ -343,8 +343,21 @@ func inflate(c *sim.Ctx, f *fb, data []byte, what int) {
 		}
 		c.Evs("inflate", fmt.Sprintf("%s@%d+=%#x", fl.name, fl.off, d))
 	}
-	for _, fl := range g.outer {
-		add(fl)
+	if len(g.outer) > 0 && len(g.inner) > 0 && c.Chance(250) {
+		// the block claims slightly less (or more) than its inner lengths need:
+		// e.g. a block that ends right after the packet data, its trailing
+		// length not counted
+		dd := d
+		d = uint64(int64(d) + []int64{-4, -8, -12, 4, -1, -2}[c.Draw(6)])
+		for _, fl := range g.outer {
+			add(fl)
+		}
+		d = dd
+		c.Fault("block_length_off_by_words")
+	} else {
+		for _, fl := range g.outer {
+			add(fl)
+		}
 	}
 	if len(g.opts) > 0 && (len(g.inner) == 0 || c.Chance(250)) {
 		// the block and one of its options claim the extra length
